@@ -64,6 +64,19 @@ def det(a):
     )
 
 
+def inv(a):
+    """Inverse of a 3x3 mp matrix by the adjugate (exact up to the working precision)."""
+    d = det(a)
+    c = [[None] * 3 for _ in range(3)]
+    for i in range(3):
+        for j in range(3):
+            i1, i2 = (i + 1) % 3, (i + 2) % 3
+            j1, j2 = (j + 1) % 3, (j + 2) % 3
+            # cofactor C_ij (cyclic indices carry the sign); inverse = C^T / det
+            c[j][i] = (a[i1][j1] * a[i2][j2] - a[i1][j2] * a[i2][j1]) / d
+    return c
+
+
 def q_vector(lam, b_i, b_f):
     """(2 pi / lam) (e_i - e_f); ``lam`` mpf, beams lists of mpf (any length unit, any length)."""
     k = TWO_PI / lam
@@ -134,6 +147,10 @@ def selftest():
     assert matmul(a, b) == mat([[2, 1, 0], [1, 0, 0], [0, 0, 3]])
     assert matmul(b, a) == mat([[0, 1, 0], [1, 2, 0], [0, 0, 3]])
     assert matvec(a, vec([1, 1, 1])) == vec([3, 1, 3])
+    assert inv(a) == [[1, -2, 0], [0, 1, 0], [0, 0, mp.mpf(1) / 3]]
+    g = mat([[2, -1, 0.5], [0.25, 3, 1], [-1, 0.5, 4]])
+    gi = matmul(g, inv(g))
+    assert all(abs(gi[i][j] - (i == j)) < mp.mpf(10) ** -45 for i in range(3) for j in range(3))
     assert det(a) == 3
     s = singular_values(mat([[0, 4, 0], [0.5, 0, 0], [0, 0, 2]]))
     assert all(mp.almosteq(g, e) for g, e in zip(s, [4, 2, 0.5], strict=True)), s
